@@ -73,6 +73,109 @@ example :
     (lookup (runRawReloads c₀ [c₁]) { scheme := "https", host := "h1.invalid", url := "https://h1.invalid/a/x/" }) = none := by
   refine ⟨by decide +kernel, by decide +kernel, by decide +kernel, by decide +kernel⟩
 
+/-! ### the storage as a whole: the table and the common secret kept from startup
+
+`getConfiguredHosts(backendIds, config, commonSecret)` is what turns a file into table entries, at startup and in
+`Reload`.  The statement "after any reload = a fresh start from the final file" needs `Reload` to hand it the *file
+being loaded* in all three arguments — the id list, the sections, and the common `[backend] secret` a section
+without own secret falls back to — exactly as startup does, and to read nothing else of the long-lived object than
+the table.  Both are read from the source on every run. -/
+
+open SigModel.Generated.Backends in
+/-- Where the arguments of `getConfiguredHosts` come from in `NewBackendStorageStatic` and in `Reload` (each: the id
+list from `config.GetString("backend", "backends")`, the configuration handed in, the common secret from
+`GetStringOptionWithEnv(config, "backend", "secret")`, assigned once), and the complete list of members of the
+receiver `Reload` touches: the lock, the compat guard, the table and the two table helpers — in particular not
+`commonSecret`, the value cached at startup.  A `Reload` that takes an argument from the receiver, assigns it twice,
+or starts reading another field fails this `decide`. -/
+theorem C13_config_source_facts :
+    startFromLoadedFile = true ∧ reloadFromLoadedFile = true ∧
+    reloadReceiverFields = ["RemoveBackendsForHost", "UpsertHost", "backends", "compatBackend", "mu"] := by decide
+
+/-- The storage after a start from `c₀` and a chain of reloaded files. -/
+def runStatic (c₀ : RawCfg) (cs : List RawCfg) : StaticSt := cs.foldl reloadStatic (startStatic c₀)
+
+theorem startStatic_table (c : RawCfg) : (startStatic c).table = fresh (normalise c) := by
+  simp [startStatic, startStaticWith, C13_config_source_facts.1]
+
+theorem reloadStatic_table (s : StaticSt) (c : RawCfg) : (reloadStatic s c).table = reloadRaw s.table c := by
+  simp [reloadStatic, reloadStaticWith, C13_config_source_facts.2.1]
+
+theorem foldl_reloadStatic_table (cs : List RawCfg) (s : StaticSt) :
+    (cs.foldl reloadStatic s).table = cs.foldl reloadRaw s.table := by
+  induction cs generalizing s with
+  | nil => rfl
+  | cons c cs ih => rw [List.foldl_cons, List.foldl_cons, ih, reloadStatic_table]
+
+theorem runStatic_table (c₀ : RawCfg) (cs : List RawCfg) : (runStatic c₀ cs).table = runRawReloads c₀ cs := by
+  unfold runStatic runRawReloads
+  rw [foldl_reloadStatic_table, startStatic_table]
+
+/-- **Files, with the common secret.**  For every start file and every chain of reloaded files — the common secret
+present, changed, removed, added again; sections with and without an own secret — every lookup on the long-lived
+storage (url accepted or not, and the backend with its secret, limit and bitrates) is answered as by a server
+freshly started from the last file. -/
+theorem C13_static_file_eq_fresh (c₀ : RawCfg) (cs : List RawCfg) (p : Probe) :
+    lookup (runStatic c₀ cs).table p = lookup (startStatic (finalRaw c₀ cs)).table p := by
+  rw [runStatic_table, startStatic_table]
+  exact C13_reload_raw_eq_fresh c₀ cs p
+
+theorem reloadRaw?_eq (t : Table) (c : RawCfg) : reloadRaw? t c = some (reloadRaw t c) := by
+  unfold reloadRaw? reloadRaw
+  split
+  · rfl
+  · exact reload?_eq _ _
+
+/-- `Reload` on a file never fails, whatever the storage went through before. -/
+theorem C13_static_file_reload_total (s : StaticSt) (c : RawCfg) : reloadStatic? s c = some (reloadStatic s c) := by
+  simp [reloadStatic?, reloadStaticWith?, reloadStatic, reloadStaticWith, reloadRaw?_eq]
+
+namespace Witness
+
+def secNoOwn (id url : String) : Sec :=
+  { id := id, url := url, parseOk := true, norm := url, host := "h1.invalid", scheme := "https", secret := "",
+    limit := none, stream := none, screen := none }
+def secOwn (id url secret : String) : Sec := { secNoOwn id url with secret := secret }
+
+end Witness
+
+open Witness in
+/-- Why the source of the common secret is a proof obligation: a `Reload` that falls back to the common secret the
+server was *started* with (`fromLoaded := false`).  Start: common secret `old`, backend `b1` without own secret.
+Reload of the same file with the common secret removed: `b1` stays accepted with `old`, a fresh start skips it.
+And over a longer chain: the common secret is dropped while every backend has an own secret (nothing observable),
+then `b3` without own secret is added: the long-lived server accepts it with the secret of a file two reloads back. -/
+theorem C13_cached_common_secret_differs :
+    let c₀ : RawCfg := { common := "old", ids := "b1", secs := [secNoOwn "b1" "https://h1.invalid/a/"] }
+    let c₁ : RawCfg := { c₀ with common := "" }
+    let d₀ : RawCfg := { common := "old", ids := "b1", secs := [secOwn "b1" "https://h1.invalid/a/" "s1"] }
+    let d₁ : RawCfg := { d₀ with common := "" }
+    let d₂ : RawCfg := { common := "", ids := "b1, b3", secs := [secOwn "b1" "https://h1.invalid/a/" "s1", secNoOwn "b3" "https://h1.invalid/c/"] }
+    let pa : Probe := { scheme := "https", host := "h1.invalid", url := "https://h1.invalid/a/x/" }
+    let pc : Probe := { scheme := "https", host := "h1.invalid", url := "https://h1.invalid/c/x/" }
+    (lookup (reloadStaticWith false (startStaticWith true c₀) c₁).table pa).map (·.secret) = some "old" ∧
+    lookup (startStaticWith true c₁).table pa = none ∧
+    lookup (reloadStaticWith false (startStaticWith true d₀) d₁).table pa = lookup (startStaticWith true d₁).table pa ∧
+    (lookup (reloadStaticWith false (reloadStaticWith false (startStaticWith true d₀) d₁) d₂).table pc).map (·.secret) = some "old" ∧
+    lookup (startStaticWith true d₂).table pc = none := by
+  refine ⟨by decide +kernel, by decide +kernel, by decide +kernel, by decide +kernel, by decide +kernel⟩
+
+open Witness in
+/-- The code as it is on the same chains, and non-vacuity of `C13_static_file_eq_fresh`: common secret present →
+removed → added again with another value; `b1` follows the file in force, `b2` keeps its own secret throughout. -/
+example :
+    let secs := [secNoOwn "b1" "https://h1.invalid/a/", secOwn "b2" "https://h1.invalid/b/" "s2"]
+    let c (common : String) : RawCfg := { common := common, ids := "b1, b2", secs := secs }
+    let pa : Probe := { scheme := "https", host := "h1.invalid", url := "https://h1.invalid/a/x/" }
+    let pb : Probe := { scheme := "https", host := "h1.invalid", url := "https://h1.invalid/b/x/" }
+    (lookup (runStatic (c "old") []).table pa).map (·.secret) = some "old" ∧
+    lookup (runStatic (c "old") [c ""]).table pa = none ∧
+    (lookup (runStatic (c "old") [c "", c "new"]).table pa).map (·.secret) = some "new" ∧
+    (lookup (runStatic (c "old") [c "new"]).table pa).map (·.secret) = some "new" ∧
+    (lookup (runStatic (c "old") [c "", c "new"]).table pb).map (·.secret) = some "s2" ∧
+    (lookup (runStatic (c "old") [c ""]).table pb).map (·.secret) = some "s2" := by
+  refine ⟨by decide +kernel, by decide +kernel, by decide +kernel, by decide +kernel, by decide +kernel, by decide +kernel⟩
+
 /-- Reloading cannot fail: `reload?` models `Reload` with an `UpsertHost` that may panic (`none`);
 with the code's current `UpsertHost` it always returns, for every table and configuration. -/
 theorem C13_reload_total (t : Table) (bs : List Backend) : (reload? t bs).isSome = true := by
@@ -352,6 +455,30 @@ theorem C13_static_meets_spec (c₀ : List Backend) (cs : List (List Backend)) (
       · simp [hh, hnone b hb hh]
       · simp [hh]
     simp [judgeProbe, hacc]
+
+theorem runRawReloads_eq (c₀ : RawCfg) (cs : List RawCfg) :
+    runRawReloads c₀ cs = runReloads (normalise c₀) (cs.map normalise) := by
+  unfold runRawReloads runReloads
+  generalize fresh (normalise c₀) = t
+  induction cs generalizing t with
+  | nil => rfl
+  | cons c cs ih => simp only [List.foldl_cons, List.map_cons, reloadRaw_eq]; exact ih _
+
+theorem finalCfg_map_normalise (c₀ : RawCfg) (cs : List RawCfg) :
+    finalCfg (normalise c₀) (cs.map normalise) = normalise (finalRaw c₀ cs) := by
+  induction cs generalizing c₀ with
+  | nil => rfl
+  | cons c cs ih => simp only [List.map_cons, finalCfg, finalRaw]; exact ih c
+
+/-- The same at the level of files: the judge reads the final file on its own (`normalise`: a section without own
+secret has the common secret of *that* file, or is not configured when the file has none) and accepts the model's
+answers after every chain of files. -/
+theorem C13_static_file_meets_spec (c₀ : RawCfg) (cs : List RawCfg) (p : Probe) :
+    judgeProbe (normalise (finalRaw c₀ cs)) p
+      ((lookup (runStatic c₀ cs).table p).map ansOf)
+      ((lookup (startStatic (finalRaw c₀ cs)).table p).map ansOf) = "ok" := by
+  rw [runStatic_table, startStatic_table, runRawReloads_eq, ← finalCfg_map_normalise]
+  exact C13_static_meets_spec _ _ p
 
 /-- The same for etcd histories; `final` is the list of the backends of the final key/value map. -/
 theorem C13_etcd_meets_spec (ops : List EtcdOp) (kvs : Infos) (hn : KeysNodup kvs)
